@@ -279,7 +279,7 @@ const c19Bar = `module bar { namespace "urn:bar\"q\""; prefix bar; import foo { 
  leaf blob { type binary; }
  leaf ref { type leafref { path "../own"; } }
  augment /top { leaf ax { type string; default "dx"; } container ac { leaf deep { type boolean; } leaf-list dl { type uint8; } } }
- augment /top/in { leaf ai { type string; } }
+ augment /top/in { leaf ai { type string; } leaf-list al { type string; } }
  augment /top/q { leaf aq { type decimal64 { fraction-digits 3; } } list qq { key a; leaf a { type int8; } leaf b { type string; } } }
 }`
 
@@ -666,7 +666,7 @@ func c19Escapes(ctx *core.Ctx, r *gen.Rng, n int) {
 // C19: XML export and import are inverse on every data tree.
 func C19(ctx *core.Ctx) error {
 	ctx.Imports = "Val.Model Tree.Schema Tree.Editor Tree.XmlEsc Tree.XmlW Tree.XmlR Check.C19Check"
-	ctx.Rule = "CDoc = generated choice-free schema (containers, keyed lists, leaf-lists, 12 leaf types, defaults) or the hand-written pair of modules (uses + augment across two namespaces, binary/empty/leafref/int8/boolean) x conforming data whose strings carry markup characters, quotes, ]]>, every white-space class at the edges and inside, non-ASCII (and, rarely, characters XML cannot carry) x selection (module, container, list) x writer configuration (WriteXMLDoc, WriteXML, XMLWtr{EnumAsIds}) x 2 (XMLWtr2) or 1 (streaming writer) random sibling interleavings of the written document read back; CEsc/CUnesc = random byte strings through patch/xml EscapeText and the decoder; distinct by SHA-256 of the case term; non-trivial = the selection holds data / the text is non-empty"
+	ctx.Rule = "CDoc = generated schema (containers, keyed lists, leaf-lists, 12 leaf types, defaults; one in four with choices, also nested in cases) or the hand-written pair of modules (uses + augment across two namespaces, binary/empty/leafref/int8/boolean) x conforming data whose strings carry markup characters, quotes, ]]>, every white-space class at the edges and inside, non-ASCII (and, rarely, characters XML cannot carry) x selection (module, container, list) x writer configuration (WriteXMLDoc, WriteXML, XMLWtr{EnumAsIds}) x 2 (XMLWtr2) or 1 (streaming writer) random sibling interleavings of the written document read back; CEsc/CUnesc = random byte strings through patch/xml EscapeText and the decoder; distinct by SHA-256 of the case term; non-trivial = the selection holds data / the text is non-empty"
 	ctx.ShardMax = 160000
 	r := gen.New(ctx.Seed)
 	nTrees := ctx.Scale(200, 3000)
@@ -689,7 +689,13 @@ func C19(ctx *core.Ctx) error {
 			data = c19GenData(tr, root, 80, 3)
 			ctx.Count("schema:pair")
 		} else {
-			if yang, m, root, err = tree.GenSchema(tr, opts); err != nil {
+			o := opts
+			if n%4 == 2 {
+				// choices (nested in cases too): at most one case of each is populated by GenData
+				o.Choices = true
+				ctx.Count("schema:with-choices")
+			}
+			if yang, m, root, err = tree.GenSchema(tr, o); err != nil {
 				return fmt.Errorf("generated schema does not load: %v\n%s", err, yang)
 			}
 			data = tree.GenData(tr, root, 85, 3)
